@@ -42,10 +42,10 @@ def P():
         'MRVWrite>MRVRead': (MRVWrite, MRVRead, 'mrv', True, True)}
 
 
-def write(pair, objs):
+def write(pair, objs, **wkw):
     W = P()[pair][0]
     f = io.StringIO()
-    with W(f) as w:
+    with W(f, **wkw) as w:
         for o in objs:
             w.write(o)
     return f.getvalue()
